@@ -318,9 +318,9 @@ RefusedChangesNothing ==
                                 /\ \A h \in DOMAIN sess : sess'[h].parts = sess[h].parts /\ sess'[h].off = sess[h].off]_mvars
 \* C02: content disappears only through an explicit delete, a collection, or the restart of a memory store
 Persistence ==
-  [][/\ \A r \in Repos : blob[r] \ blob'[r] # {} => LastOp.op \in {"BlobDel", "GC", "Restart"}
-     /\ \A r \in Repos : DOMAIN man[r] \ DOMAIN man'[r] # {} => LastOp.op \in {"ManDel", "GC", "Restart"}
-     /\ \A r \in Repos : \A t \in DOMAIN tag[r] : (t \notin DOMAIN tag'[r]) => LastOp.op \in {"ManDel", "GC", "Restart"}]_mvars
+  [][/\ \A r \in Repos : blob[r] \ blob'[r] # {} => LastOp.op \in {"BlobDel", "GC", "GCPass", "Restart", "Reconf"}
+     /\ \A r \in Repos : DOMAIN man[r] \ DOMAIN man'[r] # {} => LastOp.op \in {"ManDel", "GC", "GCPass", "Restart", "Reconf"}
+     /\ \A r \in Repos : \A t \in DOMAIN tag[r] : (t \notin DOMAIN tag'[r]) => LastOp.op \in {"ManDel", "GC", "GCPass", "Restart", "Reconf"}]_mvars
 \* C03: deleting a tag keeps the manifest; deleting a digest removes every tag that pointed to it; last writer wins
 TagSemantics ==
   [][/\ (LastOp.op = "ManDel" /\ LastOp.ref.k = "tag") => man' = man
@@ -330,7 +330,7 @@ TagSemantics ==
            tag'[LastOp.repo][LastOp.ref.v] = resp'.dig]_mvars
 \* C16: an operation addressed to one repository leaves every other repository alone (mounts read their source only)
 Isolation ==
-  [][\A r \in Repos : ("repo" \in DOMAIN LastOp /\ r # LastOp.repo /\ LastOp.op # "Restart") =>
+  [][\A r \in Repos : ("repo" \in DOMAIN LastOp /\ r # LastOp.repo /\ LastOp.op \notin {"Restart", "Reconf", "GCPass"}) =>
         blob'[r] = blob[r] /\ man'[r] = man[r] /\ tag'[r] = tag[r]]_mvars
 
 \* generator output: one line per behaviour that reached Depth
